@@ -319,6 +319,7 @@ class CGMYModel(LevyModel):
                 - g * np.log(g)
                 + (m - x) * np.log(m - x)
                 - m * np.log(m)
+                + x * (np.log(m) - np.log(g))
             )
         else:
             # adjustment for y >= 0 because of the center representation
